@@ -134,6 +134,47 @@ def task_lambda_hook(method, stub, names):
             vals.append(P.expr(u) if ft.get('qualType', '').rstrip().endswith('&') else P.expr(e))
         return f'{stub}({selfexpr}, {1 if by_copy else 0}, {", ".join(vals)})'
     return h
+def lambda_call_hook(callee, stub):
+    """callee(a0, .., ak, [captures](..) {..})  ->  <stub>_<j>(a0, .., ak, <captures in capture order>)
+
+    A lambda passed as the LAST argument of the free function `callee` is not translated.  j is the position of that
+    lambda among the lambda-taking calls of `callee` printed so far in this function (source order = the `lambda_index`
+    of the separately extracted body, when the function has no other lambdas; the prelude prototypes of the extracted
+    bodies pin the pairing: a capture list that does not fit the prototype breaks the C compile).  The other arguments
+    use default passing (glvalues by address).  Captures follow exactly Fn(..., captures=True): `this` -> self, by-reference
+    -> the address of the captured variable, by-copy -> its value, in clang's capture order (explicit captures as
+    written, implicit ones in order of first use)."""
+    from astload import lambda_captures as caps_of
+
+    def h(P, n):
+        if n.get('kind') != 'CallExpr' or len(n.get('inner', [])) < 2:
+            return None
+        rd = unwrap(n['inner'][0]).get('referencedDecl') or {}
+        if rd.get('name') != callee:
+            return None
+        lam = lambda_arg(n['inner'][-1])
+        if lam is None:
+            return None
+        seen = P.__dict__.setdefault('_lambda_calls', {}).setdefault(callee, [])
+        if lam.get('id') not in seen:
+            seen.append(lam.get('id'))
+        j = seen.index(lam.get('id'))
+        args = [P.arg(a) for a in n['inner'][1:-1]]
+        for c in caps_of(lam):
+            if c['this']:
+                args.append('self')
+            elif c['byref']:
+                args.append(c['name'] if c['var_type'].get('qualType', '').rstrip().endswith('&') or c['id'] in P.byref_captures
+                            else f'&{c["name"]}')
+            else:
+                if c['var_type'].get('qualType', '').rstrip().endswith('&'):
+                    raise Unsupported(f'by-copy capture of the reference {c["name"]}')
+                args.append(c['name'])
+        P.note(f'{callee}(.., lambda #{j}) -> {stub}_{j}')
+        return f'{stub}_{j}({", ".join(args)})'
+    return h
+
+
 # ----------------------------------------------------------------------------- std::variant
 # C model convention (written by the spec's prelude): struct { uint8_t index; T0 a0; T1 a1; ... } -- `index` is
 # variant::index(), `a<k>` the storage of alternative k (alternatives without state, e.g. std::monostate, need no member).
